@@ -25,7 +25,7 @@ func c15Sizes(tier string) (units, per int) {
 	if tier == "thorough" {
 		return 3000, 60
 	}
-	return 160, 24
+	return 400, 48
 }
 
 // c15Recursive builds optional recursion of depth 1..3 with the recursive member first,
